@@ -238,8 +238,14 @@ class Which(Contract):
     def exits(self, v):
         return ()
 
+    def effects(self, v):
+        v.g['which.env'] = v.old.env
+        v.g['which.filename'] = v.old.filename
+
     def ensures(self, v):
         f = v.old.filename
+        if getattr(v, 'label', None) is not None:
+            return []           # callers only need the outcome; the lookup itself is proved on which()
         explicit = And(Not(eq(_uf('Dirname', 's', 's')(f), '')), fs_exec(f))
         lst = v.g['entries']
         out = [('explicit-path-wins', Implies(explicit, eq(v.result, f) if v.result is not None else False))]
@@ -265,6 +271,96 @@ class Which(Contract):
         return out
 
 
+# ---- spawn._spawn: the child is started exactly as requested ---------------------------------------------
+PTYS = 'pexpect.pty_spawn.spawn'
+
+
+class PtySpawnCall(Contract):
+    """ptyprocess.PtyProcess.spawn(argv, cwd, env, echo, preexec_fn, dimensions): remembered as ghosts; what the
+    child finally sees (execvpe, chdir, TIOCSWINSZ, termios echo) is ptyprocess / the kernel."""
+    params = ['argv', 'cwd', 'env', 'echo', 'preexec_fn', 'dimensions', 'pass_fds']
+    defaults = {'cwd': None, 'env': None, 'echo': True, 'preexec_fn': None, 'dimensions': (24, 80), 'pass_fds': ()}
+
+    def outcomes(self, v):
+        def mk(interp, pre):
+            from pyvc.values import HObj, VInt
+            ctx = interp.ctx
+            return ctx.alloc(HObj('iface:ptyproc', 'obj', {'pid': ctx.fresh(T.Int, 'pid'), 'fd': ctx.fresh(T.Int, 'fd')}, closed=False))
+        return [Ret(T.Any, make=mk)]
+
+    def effects(self, v):
+        v.g['launched'] = v.g.get('launched', 0) + 1
+        for k in ('argv', 'cwd', 'env', 'echo', 'preexec_fn'):
+            v.g['launch.' + k] = getattr(v.old, k)
+        v.g['launch.dimensions_given'] = 'dimensions' in v.args_v and not v.args_v.get('_defaulted_dimensions', False)
+        v.g['launch.dimensions'] = v.old.dimensions
+
+    def bind(self, args, kwargs, interp):
+        b = Contract.bind(self, args, kwargs, interp)
+        if 'dimensions' not in kwargs and len(args) < 6:
+            b['_defaulted_dimensions'] = interp.const(True)
+        return b
+
+
+class SpawnLaunch(Contract):
+    """_spawn with an explicit argument list of length 1 or 2 (the option pass-through does not depend on the
+    length; command lines given as one string go through split_command_line, under contract above)."""
+    name = PTYS + '._spawn'
+    props = ('C13',)
+    standin = False
+
+    def shape(self, b):
+        kind = b.choice('mode', ['b', 's'])
+        nargs = b.choice('nargs', [1, 2])
+        args = b.list([b.str('arg%d' % i, 's') for i in range(nargs)])
+        env = b.opt('self.env', lambda: b.obj('env', 'iface:env', sealed=True))
+        sp = b.obj('self', PTYS, sealed=False, env=env, cwd=b.opt('cwd', lambda: b.str('cwd', 's')),
+                   echo=b.bool('echo'), ignore_sighup=b.bool('ignore_sighup'),
+                   encoding=b.none() if kind == 'b' else b.const('utf-8'), pid=b.none(),
+                   args=b.none(), command=b.none(), name=b.any('name0'))
+        for k in ('consulted', 'PATH', 'entries', 'split_of'):
+            b.ghost(k, None)
+        b.ghost('launched', 0)
+        dims = b.opt('dimensions', lambda: b.tuple(b.int('rows'), b.int('cols')))
+        pre = b.opt('preexec_fn', lambda: b.any('preexec_fn'))
+        return dict(self=sp, command=b.str('command', 's'), args=args, preexec_fn=pre, dimensions=dims)
+
+    def outcomes(self, v):
+        return [Ret(T.NoneT), Raises('ExceptionPexpect', 'not-found'), Raises('UnicodeEncodeError')]
+
+    def exits(self, v):
+        return ('ExceptionPexpect', 'UnicodeEncodeError')
+
+    def ensures(self, v):
+        if v.raised is not None:
+            return [('nothing-launched-on-error', eq(v.g['launched'], 0))]
+        sp, new = v.old.self, v.new.self
+        g = v.g
+        out = [('C13:launched-exactly-once', eq(g['launched'], 1)),
+               ('C13:working-directory', eq(g['launch.cwd'], sp.cwd)),
+               ('C13:environment', (g['launch.env'] is None) if sp.env is None else eq(g['launch.env'], sp.env)),
+               ('C13:echo-setting', eq(g['launch.echo'], sp.echo)),
+               ('C13:PATH-of-the-env-argument', (g.get('which.env') is None) if sp.env is None else eq(g.get('which.env'), sp.env))]
+        d = v.old.dimensions
+        if d is None:
+            out.append(('C13:default-terminal-size', g['launch.dimensions_given'] is False))
+        else:
+            out.append(('C13:terminal-size', And(g['launch.dimensions_given'] is True, eq(g['launch.dimensions'], d))))
+        pre = g['launch.preexec_fn']
+        if getattr(v, 'concrete', False):
+            return out
+        from pyvc.values import VFunc
+        # SIGHUP disposition: with ignore_sighup the child gets pexpect's wrapper (installs SIG_IGN, then calls the
+        # user's function); without it exactly the user's function
+        wrapper = isinstance(pre, VFunc) and pre.kind == 'closure'
+        out.append(('C13:sighup-disposition', Implies(sp.ignore_sighup, wrapper)))
+        if not wrapper:
+            out.append(('C13:user-preexec-fn-unchanged', And(Not(sp.ignore_sighup), same(pre, v.old.preexec_fn))))
+        out.append(('C13:process-handle', And(eq(new.pid, new.ptyproc.pid), eq(new.child_fd, new.ptyproc.fd),
+                                              eq(new.terminated, False), eq(new.closed, False))))
+        return out
+
+
 def register(reg):
     reg.add(SplitCommandLine)
     reg.add(IsExecutableFile)
@@ -278,3 +374,7 @@ def register(reg):
     reg.add_extern('os.environ.get', type('OsEnvGet', (EnvGet,), dict(which='os')))
     reg.add_iface('iface:env', 'get', EnvGet)
     reg.add_extern('str.split', StrSplit)
+    reg.add(SpawnLaunch)
+    reg.add_extern('ptyprocess.PtyProcess.spawn', PtySpawnCall)
+
+
